@@ -600,6 +600,37 @@ RAW_FOREIGN_STATES = [_F0, "encode = local_encode", "encode = json.dumps", "dump
                       "enc3 = json.dumps", "dumps = json.loads", "encode = 5", "encode = json.dumps", "dumps = json.dumps"]
 
 
+RAW_DOTTED_MOD = """from twosigma.memento import memento_function
+import types
+
+
+def scale(x):
+    return x * 2
+
+
+def triple(x):
+    return x * 3
+
+
+_orig = scale
+helpers = types.ModuleType("helpers_of_the_program")
+%s
+
+
+@memento_function
+def m1(x):
+    return [scale(x), helpers.scale(x)]
+
+
+@memento_function
+def m2(x):
+    return m1(x) + [helpers.scale(x)]
+"""
+_D = "scale = %s\nhelpers.scale = %s"
+RAW_DOTTED_STATES = [_D % ("_orig", "_orig"), _D % ("_orig", "triple"), _D % ("_orig", "_orig"), _D % ("triple", "_orig"), _D % ("_orig", "_orig"),
+                     _D % ("triple", "triple"), _D % ("_orig", "_orig")]
+
+
 def rebinding_kinds_scenario(root, template=None, all_states=None, what="rebind-variable-to"):
     """a tracked module variable is re-bound to an int, to a plain function, that function is re-defined, the name is bound to a
     lambda and back to an int: after every step the in-process versions are those of a fresh process on the resulting module.
@@ -894,7 +925,9 @@ def main(chk, replay=None):
             fails = (rebinding_kinds_scenario(root, RAW_DECLG_MOD, RAW_DECLG_STATES, "redefine-declared-dependency")
                      if replay.get("raw_kinds") == "declared" else
                      rebinding_kinds_scenario(root, RAW_FOREIGN_MOD, RAW_FOREIGN_STATES, "rebind-name-of-foreign-function")
-                     if replay.get("raw_kinds") == "foreign" else rebinding_kinds_scenario(root))
+                     if replay.get("raw_kinds") == "foreign" else
+                     rebinding_kinds_scenario(root, RAW_DOTTED_MOD, RAW_DOTTED_STATES, "rebind-one-of-two-spellings")
+                     if replay.get("raw_kinds") == "dotted" else rebinding_kinds_scenario(root))
             print(json.dumps(dict(still_fails=bool(fails), observed=fails[:2]), default=str))
             return 1 if fails else 0
         finally:
@@ -1008,6 +1041,15 @@ def main(chk, replay=None):
                                "computes %s" % (f["event"][1], f["in_process"], f["fresh"]),
                        "class": {"clause": f["clause"], "event": "rebind-name-of-foreign-function", "object": "function"},
                        "raw_kinds": "foreign", "source": RAW_FOREIGN_MOD, "observed": ffails[:2]})
+    qfails = rebinding_kinds_scenario(chk.tmpdir(), RAW_DOTTED_MOD, RAW_DOTTED_STATES, "rebind-one-of-two-spellings")
+    chk.case(["one-function-reached-as-name-and-as-module-attribute"], nontrivial=True, sample=dict(fails=qfails[:1]))
+    chk.count("event:rebind-one-of-two-spellings", len(RAW_DOTTED_STATES) - 1)
+    if qfails:
+        f = qfails[0]
+        chk.violation({"what": "a plain function is reached as `scale` and as `helpers.scale`; after `%s` the in-process versions are %s but a fresh "
+                               "process computes %s" % (f["events"][-1].replace("\n", "; "), f["in_process"], f["fresh"]),
+                       "class": {"clause": f["clause"], "event": "rebind-one-of-two-spellings", "object": "function"},
+                       "raw_kinds": "dotted", "source": RAW_DOTTED_MOD, "observed": qfails[:2]})
     dfails = declared_dependency_scenarios(chk.tmpdir())
     chk.case(["clones-of-functions-with-declared-dependencies"], nontrivial=True, sample=dict(fails=dfails[:1]))
     chk.count("event:create-clone-of-declared-dependency-function", 6)
